@@ -7,7 +7,7 @@
      enc_inv   deciphering inverts ciphering           (C07: c07_cipher_involutive, okp p := |p| < 536870909)
    The received MAC is computed but never compared by the code, so no hypothesis about MAC verification appears. *)
 From Coq Require Import NArith List Bool.
-Require Import Bytes Count NasSec RefNasPeer Security NasSecInst CountProofs NasSecProofs.
+Require Import Bytes Count NasSec RefNasPeer Security NasSecInst CountProofs NasSecProofs NasSecC07.
 Import ListNotations.
 Open Scope N_scope.
 
@@ -61,6 +61,18 @@ Theorem c10_history_recovered :
     hrun enc mac st (map (fun x => HRecv (unsome (snd x))) sent) = dl_expected (ul st) ops sent.
 Proof. exact dl_history_recovered. Qed.
 Print Assumptions c10_history_recovered.
+
+(* the same for the algorithms the Go code calls (Model/Security.v), hypotheses discharged by C07
+   (c07_mac_length = nas_mac_len4, c07_cipher_involutive = nas_encrypt_involutive) *)
+Theorem c10_history_recovered_go :
+  forall (ops:dl_ops) st,
+    wf st -> key_ok (kenc st) = true -> ea st <= 2 -> ia st = 1 \/ ia st = 2 ->
+    Forall (dl_op_ok short_enough) ops ->
+    let sent := dl_history nas_encrypt nas_mac (ctx_of st) (dl st) ops in
+    all_some (map snd sent) ->
+    hrun nas_encrypt nas_mac st (map (fun x => HRecv (unsome (snd x))) sent) = dl_expected (ul st) ops sent.
+Proof. exact dl_history_recovered_go. Qed.
+Print Assumptions c10_history_recovered_go.
 
 (* ---- non-vacuity *)
 Example c10_hypotheses_satisfiable :
